@@ -71,6 +71,23 @@ def gen_ops(ctx):
             # no transformations of images without storage: the factories would do pointer arithmetic on a null pointer
             xf = rand_xforms(r, fw, fh, r.range(0, 6 if th else 3)) if fw > 0 and fh > 0 and ctor != "a" else "-"
             ops.append(line(W, H, A, mode, R, ctor, W2, H2, A2, xf))
+        # sequences of recreate calls (all four overloads in turn), biased towards calls that keep the storage
+        for _ in range(6000 // len(KINDS) if th else 600 // len(KINDS)):
+            W, H = r.range(1, N), r.range(1, N)
+            if th and W * H > 400: W, H = W % 20 + 1, H % 20 + 1
+            A = pick_align(r, kind); mode = r.choice([0, 1, 1]); R = res(A)
+            calls = []
+            for _ in range(r.range(1, 5)):
+                if r.chance(3, 4): cw, ch = r.range(0, max(W, 1)), r.range(0, max(H, 1))       # usually fits
+                else: cw, ch = r.range(0, N), r.range(0, N)
+                if r.chance(1, 5): cw, ch = ch, cw
+                ca = r.choice([0, 0, A, pick_align(r, kind, [0, 1, 2, 4, 8, 16])])
+                if r.chance(1, 6) and calls: cw, ch, ca = calls[-1]                               # repeated call: nothing to do
+                calls.append((cw, ch, ca))
+            fw, fh = calls[-1][0], calls[-1][1]
+            xf = rand_xforms(r, fw, fh, r.range(0, 3)) if fw > 0 and fh > 0 and r.chance(1, 2) else "-"
+            ops.append(line(W, H, A, mode, R, "q", calls[0][0], calls[0][1], calls[0][2], xf) + " " +
+                       ("/".join("q%d,%d,%d" % c for c in calls[1:]) if len(calls) > 1 else "-"))
         if hasbuf:
             for W in range(0, 7):
                 for H in range(0, 5):
@@ -91,7 +108,7 @@ ASSUME = [
     "which bytes a channel access copies is modelled by packed_dynamic_channel_reference::data_size (translated); on the real code an access past the "
     "allocation is detected by a guard page placed directly behind (mode 1) or before (mode 0, residue 0) the buffer, and by ASan",
     "pixel algorithms are exercised (fill_pixels, for_each_pixel, copy_pixels) but their access sets are not modelled here (C04)",
-    "planar and bit-aligned derived views: in-bounds follows from C01_derived_is_image_pixel + the image theorem (not stated as one theorem)",
+    "copy construction / assignment control flow (which constructor or recreate path they take) is hand-modelled in the driver and tied by the correspondence only",
 ]
 
 def run(ctx, ops=None):
